@@ -160,6 +160,10 @@ def faulted_run(prog, mode, i, kind, baseline, keep_state=False, expect_chain=No
                         )
                     )
     residue = res.residue
+    if res.ctx_unchanged is False:
+        # the caller's Context (its scopes, render_context depth, bound template) is per-render state too: stock Django's
+        # own tags restore it when a render fails (context managers), so a later render with the same Context is unaffected
+        fails.append(("[%s] after invocation #%d (%s) raised: the caller's Context is not as it was before the render: %s" % (mode, i, label, (res.ctx_diff or "")[:700]), "c06-context-left-behind"))
     if residue:
         fails.append(("[%s] after invocation #%d (%s) raised: registries not empty: %r" % (mode, i, label, residue), "c06-residue:" + ",".join(sorted(residue))))
     # reachability of the sentinel
@@ -422,6 +426,92 @@ def check_pyslots(case, col=None):
     return fails
 
 
+class ReuseBoom(Exception):
+    pass
+
+
+REUSE_POINTS = ["get_context_data", "on_render_before", "get_template", "template_filter", "on_render_after"]
+
+
+def check_reuse(case, col=None):
+    """ONE component instance rendered again and again (as `Component.as_view()` does with its instance), each render
+    failing at a user-code point: the objects passed to a failed render must become unreachable, the instance must not
+    grow, and a fault-free render afterwards gives the normal output."""
+    import gc
+    import weakref
+
+    from django_components import Component
+
+    from vf import vf_tags
+
+    mode, point = case["mode"], case["point"]
+    fails = []
+    env.reset()
+    with env.components_settings(context_behavior=mode):
+        state = {"fail": False}
+
+        def maybe(where):
+            if state["fail"] and where == point:
+                raise ReuseBoom("boom at " + where)
+
+        class R(Component):
+            def get_template(self, context):
+                maybe("get_template")
+                return "{% load vf_tags %}<b>{{ v|vf_tick:'f' }}</b>"
+
+            def get_context_data(self, obj=None, **kw):
+                maybe("get_context_data")
+                return {"v": "ok"}
+
+            def on_render_before(self, context, template):
+                maybe("on_render_before")
+
+            def on_render_after(self, context, template, content):
+                maybe("on_render_after")
+
+        vf_tags.TICK["fn"] = lambda label: maybe("template_filter")
+        try:
+            inst = R()
+            good = inst.render(kwargs={"obj": None}, render_dependencies=False)
+            refs = []
+            sizes = []
+            for rep in range(6):
+                s_ = Sentinel()
+                refs.append(weakref.ref(s_))
+                state["fail"] = True
+                try:
+                    inst.render(kwargs={"obj": s_}, slots={"x": lambda ctx, data, ref, _s=s_: "x"}, render_dependencies=False)
+                    fails.append(("[%s] reused instance: the injected failure at %s did not propagate" % (mode, point), "c06-reuse-swallowed"))
+                except ReuseBoom:
+                    pass
+                except Exception as e:  # noqa
+                    fails.append(("[%s] reused instance: failure at %s surfaced as %r" % (mode, point, e), "c06-reuse-replaced:" + exc_bucket(e)))
+                finally:
+                    state["fail"] = False
+                del s_
+                gc.collect()
+                sizes.append(sum(len(v) for v in vars(inst).values() if hasattr(v, "__len__") and not isinstance(v, str)))
+            alive = sum(1 for r in refs if r() is not None)
+            if alive:
+                fails.append(("[%s] ONE instance rendered 6 times, each failing at %s: %d of the 6 objects passed to the failed renders are still reachable afterwards (sizes of the instance's containers after each failure: %r)" % (mode, point, alive, sizes), "c06-reuse-sentinel-alive"))
+            elif len(set(sizes)) > 1:
+                fails.append(("[%s] ONE instance rendered 6 times, each failing at %s: the instance's containers grow: %r" % (mode, point, sizes), "c06-reuse-growth"))
+            again = inst.render(kwargs={"obj": None}, render_dependencies=False)
+            from vf.core import normalize_ids
+
+            if normalize_ids(again) != normalize_ids(good):
+                fails.append(("[%s] reused instance: render after the failures gives %r, before them %r" % (mode, again[:200], good[:200]), "c06-reuse-later-render"))
+            res = {k: v for k, v in env.registry_sizes().items() if v}
+            if res:
+                fails.append(("[%s] reused instance: registries not empty after failures at %s: %r" % (mode, point, res), "c06-reuse-residue"))
+        finally:
+            vf_tags.TICK["fn"] = None
+    if col is not None:
+        col.case(jhash(["reuse", mode, point]), True, sample={"family": "one instance rendered repeatedly, failing", "mode": mode, "fault_point": point}, labels=("reused_instance",))
+    env.reset()
+    return fails
+
+
 def plan(tier, seed, scale=1.0):
     b = BOUNDS[tier]
     n = max(16, int(b["programs"] * scale))
@@ -432,6 +522,9 @@ def plan(tier, seed, scale=1.0):
         specs.append({"kind": "seq", "n": max(1, ns // 8), "seed": derive_seed(seed, "c06s", sh)})
     specs.append({"kind": "pyslots", "mode": "django"})
     specs.append({"kind": "pyslots", "mode": "isolated"})
+    for mode in ("django", "isolated"):
+        for point in REUSE_POINTS:
+            specs.append({"kind": "reuse", "mode": mode, "point": point})
     return specs
 
 
@@ -445,6 +538,11 @@ def run_shard(spec):
     if spec["kind"] == "pyslots":
         case = {"kind": "pyslots", "mode": spec["mode"]}
         for m, b in check_pyslots(case, col):
+            col.fail(case, m, b)
+        return col
+    if spec["kind"] == "reuse":
+        case = {"kind": "reuse", "mode": spec["mode"], "point": spec["point"]}
+        for m, b in check_reuse(case, col):
             col.fail(case, m, b)
         return col
     if spec["kind"] == "main":
@@ -464,4 +562,6 @@ def replay(case):
         return check_sequence(case)
     if case.get("kind") == "pyslots":
         return check_pyslots(case)
+    if case.get("kind") == "reuse":
+        return check_reuse(case)
     return check_program(case)
